@@ -225,8 +225,9 @@ def check(rep, ctx):
     rfn = RR["fn"]
     bt, bo = RR["bt"].term, RR["bo"].term
     rrets = [q for q in RR["paths"] if q.outcome == "return"]
-    rep.check(R_R, len(rrets) == 4, construct=rfn.ref, stmt=f"{len(rrets)} returning paths",
-              message=f"expected 4 returning paths (key/value null or not), found {len(rrets)}", file=file, line=rfn.node.lineno, instance="paths")
+    rep.check(R_R, len(rrets) >= 4, construct=rfn.ref, stmt=f"{len(rrets)} returning paths",
+              message=f"key and value are each null or not: at least 4 returning paths are needed, found {len(rrets)}", file=file,
+              line=rfn.node.lineno, instance="paths")
     ts_terms = []
     for q in rrets:
         evs = [e for e in q.effects if e[0] in ("xread", "varint", "read", "repeat", "alloc")]
@@ -317,8 +318,8 @@ def check(rep, ctx):
         rep.check(R_R, not problems, construct=rfn.ref, stmt="read_record path", message="; ".join(problems), file=file, line=rfn.node.lineno,
                   instance=str(sorted((show_term(f[0])[:40], f[1]) for f in q.facts))[:200])
     hp, hfn = RA.read_paths("read_header")
-    rep.check(R_R, len([x for x in hp if x.outcome == "return"]) == 4, construct=hfn.ref, stmt="read_header paths",
-              message="header reader: expected 4 returning paths", file=file, line=hfn.node.lineno, instance="header")
+    rep.check(R_R, len([x for x in hp if x.outcome == "return"]) >= 2, construct=hfn.ref, stmt="read_header paths",
+              message="header reader: a header value is null or not, at least 2 returning paths are needed", file=file, line=hfn.node.lineno, instance="header")
     # truncation: data-flow of unchecked raw reads -------------------------------------------------------------------
     seen = {}
     for name, paths in (("read_batch", B["paths"]), ("read_record", RR["paths"]), ("read_header", hp)):
@@ -397,13 +398,16 @@ def check(rep, ctx):
     wp, wfn = RA.write_paths("write_prepared_batch", [batch])
     wfile = ctx.sm.require("kio.records.writers").rel
     wrets = [x for x in wp if x.outcome == "return"]
-    if len(wrets) != 1:
-        rep.check(R_W, False, construct=wfn.ref, stmt="write_prepared_batch", message=f"{len(wrets)} returning paths", file=wfile, line=wfn.node.lineno)
-    else:
-        ws = [e for e in wrets[0].effects if e[0] in ("write", "wvarint") and e[1].kind == "param"]
+    if not wrets:
+        rep.check(R_W, False, construct=wfn.ref, stmt="write_prepared_batch", message="no returning path: a batch that was read cannot be written back", file=wfile, line=wfn.node.lineno)
+    first_wret = True
+    for wret in wrets:  # every returning path is held to the same rules (a helper that forks is not a violation)
+        _chk = (lambda rule, ok, **kw: rep.check(rule, ok, **kw)) if first_wret else (lambda rule, ok, **kw: (ok or rep.check(rule, ok, **kw)))
+        first_wret = False
+        ws = [e for e in wret.effects if e[0] in ("write", "wvarint") and e[1].kind == "param"]
         for i, (name, fmt) in enumerate(BATCH_SPEC):
             if i >= len(ws):
-                rep.check(R_W, False, construct=wfn.ref, stmt=name, message=f"slot {name} is not written", file=wfile, line=wfn.node.lineno, instance=name)
+                _chk(R_W, False, construct=wfn.ref, stmt=name, message=f"slot {name} is not written", file=wfile, line=wfn.node.lineno, instance=name)
                 continue
             gf, gv = fmt_of_write(ws[i])
             if name == "count":
@@ -414,12 +418,12 @@ def check(rep, ctx):
                 okk = gf in (fmt, "const:" + _struct.pack(fmt, MAGIC).hex())
             else:
                 okk = gf == fmt and gv == want
-            rep.check(R_W, okk, construct=wfn.ref, stmt=f"{name}: {gf} <- {show_term(gv)[:80]}",
+            _chk(R_W, okk, construct=wfn.ref, stmt=f"{name}: {gf} <- {show_term(gv)[:80]}",
                       message=f"slot {name} is written as {gf} <- {show_term(gv)[:100]}, expected {fmt} <- {show_term(want)}",
                       file=wfile, line=wfn.node.lineno, instance=name)
         # the records are written relative to the batch's own base offset / base timestamp (what the reader adds back)
-        loops = [e for e in wrets[0].effects if e[0] == "repeat" and e[1] == ("len", ("attr", batch.term, "records"))]
-        rep.check(R_W, len(loops) == 1, construct=wfn.ref, stmt="for record in batch.records", message="the records of the batch are not written "
+        loops = [e for e in wret.effects if e[0] == "repeat" and e[1] == ("len", ("attr", batch.term, "records"))]
+        _chk(R_W, len(loops) == 1, construct=wfn.ref, stmt="for record in batch.records", message="the records of the batch are not written "
                   "once each", file=wfile, line=wfn.node.lineno, instance="loop")
         if len(loops) == 1:
             subs = set()
@@ -443,7 +447,7 @@ def check(rep, ctx):
                 rel = [t for t in subs if contains(t[1], ("attr", elem, fld)) and not (t[2][0] == "k")]
                 want = ("attr", batch.term, base)
                 bad = [t for t in rel if t[2] != want]
-                rep.check(R_W, bool(rel) and not bad, construct=wfn.ref, stmt=f"record {fld} delta relative to {show_term(rel[0][2])[:80] if rel else '?'}",
+                _chk(R_W, bool(rel) and not bad, construct=wfn.ref, stmt=f"record {fld} delta relative to {show_term(rel[0][2])[:80] if rel else '?'}",
                           message=(f"record {fld} deltas are written relative to {show_term(bad[0][2])[:120]}, not to batch.{base}: the reader adds "
                                    f"batch.{base} back, so a batch whose first record is not at the base (compacted) is not written back as read")
                           if bad else f"no {fld} delta relative to a base found in the records loop",
